@@ -14,8 +14,10 @@ namespace PowHsm
 namespace Props.C12
 open Conc Generated
 
-/-- the class instantiated by `TCPServer.run` handles requests one at a time -/
-theorem server_is_sequential : kindOfString serverKind = .sequential ∧ serverClass = "socketserver.TCPServer" := by
+/-- the class instantiated by `TCPServer.run` handles requests one at a time, and its handler
+    class processes the request inline, starting nothing concurrent on the way -/
+theorem server_is_sequential : kindOfString serverKind = .sequential ∧ serverClass = "socketserver.TCPServer" ∧
+    handlerInline = true ∧ handlerSpawns = [] := by
   decide
 
 /-- the log seen as (closed blocks, block in progress) -/
